@@ -193,3 +193,19 @@ def _lemma_r4(prog):
 
 
 lemmas.register("C07.R4", _lemma_r4)
+
+
+def _lemma_dispatch(prog):
+    """WrapAlgorithm::wrap hands the words and the f64 image of the widths to the selected algorithm and returns its
+    arrangement unchanged, on every path (FirstFit arm here, OptimalFit arm in C03.R5)."""
+    from ..engine import Report
+    rep = Report("C07")
+    rep.set_config(prog.config)
+    guarded(rep, "C07.R3", "crate::wrap_algorithms::WrapAlgorithm::wrap", lambda: _r3(prog, rep))
+    if has_feature(prog, "smawk"):
+        from . import C03
+        guarded(rep, "C03.R5", "crate::wrap_algorithms::WrapAlgorithm::wrap", lambda: C03._dispatch(prog, rep))
+    return not rep.violations
+
+
+lemmas.register("DISPATCH", _lemma_dispatch)
